@@ -157,6 +157,9 @@ pub struct Case {
     /// curve tolerance: 0 = the default 1e-9 * scale, negative = exactly zero, positive = this factor of scale
     #[serde(default)]
     pub ctol: f64,
+    /// the source is itself a derived curve: 0 = as built, 1 = reversed, 2 = simplified with 0.3 * scale first
+    #[serde(default)]
+    pub derived: u8,
 }
 
 struct Src {
@@ -384,6 +387,14 @@ pub fn judge(case: &Case, l: &mut Local) {
             Ok(c) => c,
             Err(_) => return,
         };
+        let c = match case.derived {
+            1 => match guarded(|| c.reversed()) { Ok(x) => x, Err(_) => return },
+            2 => match guarded(|| c.simplify(0.3 * case.scale)) { Ok(x) => x, Err(_) => return },
+            _ => c,
+        };
+        if case.derived != 0 {
+            l.bucket("source that is itself a derived curve");
+        }
         let v = to2(c.points());
         let big_l = c.length();
         l.distinct(hash_of(&(hash_f64s(&v.concat()), c.is_closed())));
@@ -427,6 +438,13 @@ pub fn judge(case: &Case, l: &mut Local) {
             Ok(c) => c,
             Err(_) => return,
         };
+        let c = match case.derived {
+            2 => match guarded(|| c.simplify(0.3 * case.scale)) { Ok(x) => x, Err(_) => return },
+            _ => c,
+        };
+        if case.derived != 0 {
+            l.bucket("source that is itself a derived curve");
+        }
         let v = to3(c.points());
         let big_l = c.length();
         l.distinct(hash_of(&(hash_f64s(&v.concat()), 3u8)));
@@ -479,7 +497,7 @@ pub fn cases(tier: Tier) -> Vec<Case> {
                     if fc && (op == "rdp" || op == "fillgaps") {
                         continue;
                     }
-                    out.push(Case { dim: 2, verts: verts.clone(), force_closed: fc, scale: *scale, op: op.into(), param, nudge: 0.0, ctol: 0.0 });
+                    out.push(Case { dim: 2, verts: verts.clone(), force_closed: fc, scale: *scale, op: op.into(), param, nudge: 0.0, ctol: 0.0, derived: 0 });
                 }
             }
         }
@@ -496,7 +514,7 @@ pub fn cases(tier: Tier) -> Vec<Case> {
                 if op == "rdp" || op == "fillgaps" {
                     continue;
                 }
-                out.push(Case { dim: 2, verts: verts.clone(), force_closed: false, scale, op: op.into(), param, nudge: 0.5, ctol: 0.0 });
+                out.push(Case { dim: 2, verts: verts.clone(), force_closed: false, scale, op: op.into(), param, nudge: 0.5, ctol: 0.0, derived: 0 });
             }
         }
     }
@@ -511,10 +529,10 @@ pub fn cases(tier: Tier) -> Vec<Case> {
             }
             for fc in [false, true] {
                 for scale in [0.25, 1.0] {
-                    out.push(Case { dim: 2, verts: verts.clone(), force_closed: fc, scale, op: op.into(), param, nudge: 0.0, ctol: -1.0 });
+                    out.push(Case { dim: 2, verts: verts.clone(), force_closed: fc, scale, op: op.into(), param, nudge: 0.0, ctol: -1.0, derived: 0 });
                 }
                 if op == "simplify" {
-                    out.push(Case { dim: 2, verts: verts.clone(), force_closed: fc, scale: 1.0, op: op.into(), param, nudge: 0.0, ctol: 0.05 });
+                    out.push(Case { dim: 2, verts: verts.clone(), force_closed: fc, scale: 1.0, op: op.into(), param, nudge: 0.0, ctol: 0.05, derived: 0 });
                 }
             }
         }
@@ -523,11 +541,35 @@ pub fn cases(tier: Tier) -> Vec<Case> {
         let verts: Vec<Vec<i32>> = s.iter().map(|i| lat3[*i].to_vec()).collect();
         for (op, param) in requests() {
             if op == "simplify" {
-                out.push(Case { dim: 3, verts: verts.clone(), force_closed: false, scale: 1.0, op: op.into(), param, nudge: 0.0, ctol: 0.05 });
-                out.push(Case { dim: 3, verts: verts.clone(), force_closed: false, scale: 1.0, op: op.into(), param, nudge: 0.0, ctol: 0.6 });
+                out.push(Case { dim: 3, verts: verts.clone(), force_closed: false, scale: 1.0, op: op.into(), param, nudge: 0.0, ctol: 0.05, derived: 0 });
+                out.push(Case { dim: 3, verts: verts.clone(), force_closed: false, scale: 1.0, op: op.into(), param, nudge: 0.0, ctol: 0.6, derived: 0 });
             } else if op != "rdp" && op != "fillgaps" {
-                out.push(Case { dim: 3, verts: verts.clone(), force_closed: false, scale: 1.0, op: op.into(), param, nudge: 0.0, ctol: -1.0 });
+                out.push(Case { dim: 3, verts: verts.clone(), force_closed: false, scale: 1.0, op: op.into(), param, nudge: 0.0, ctol: -1.0, derived: 0 });
             }
+        }
+    }
+    // sources that are themselves derived curves (reversed; simplified first): whatever a derived curve carries
+    // over from its parent must have been refreshed
+    for s in gen::seqs(lat2.len(), 3, 4) {
+        let verts: Vec<Vec<i32>> = s.iter().map(|i| lat2[*i].to_vec()).collect();
+        for (op, param) in requests() {
+            if op == "rdp" || op == "fillgaps" {
+                continue;
+            }
+            for derived in [1u8, 2] {
+                for fc in [false, true] {
+                    out.push(Case { dim: 2, verts: verts.clone(), force_closed: fc, scale: 1.0, op: op.into(), param, nudge: 0.0, ctol: 0.0, derived });
+                }
+            }
+        }
+    }
+    for s in gen::seqs(lat3.len(), 3, 3) {
+        let verts: Vec<Vec<i32>> = s.iter().map(|i| lat3[*i].to_vec()).collect();
+        for (op, param) in requests() {
+            if op == "rdp" || op == "fillgaps" {
+                continue;
+            }
+            out.push(Case { dim: 3, verts: verts.clone(), force_closed: false, scale: 1.0, op: op.into(), param, nudge: 0.0, ctol: 0.0, derived: 2 });
         }
     }
     // RDP on sequences with repeated points (the lattice sequences above never repeat consecutively)
@@ -536,7 +578,7 @@ pub fn cases(tier: Tier) -> Vec<Case> {
             let mut verts: Vec<Vec<i32>> = s.iter().map(|i| lat2[*i * 2].to_vec()).collect();
             verts.insert(rep, verts[rep].clone());
             for e in [1e-6, 0.8] {
-                out.push(Case { dim: 2, verts: verts.clone(), force_closed: false, scale: 1.0, op: "rdp".into(), param: e, nudge: 0.0, ctol: 0.0 });
+                out.push(Case { dim: 2, verts: verts.clone(), force_closed: false, scale: 1.0, op: "rdp".into(), param: e, nudge: 0.0, ctol: 0.0, derived: 0 });
             }
         }
     }
@@ -548,7 +590,7 @@ pub fn cases(tier: Tier) -> Vec<Case> {
         };
         for scale in sc {
             for (op, param) in requests() {
-                out.push(Case { dim: 3, verts: verts.clone(), force_closed: false, scale: *scale, op: op.into(), param, nudge: 0.0, ctol: 0.0 });
+                out.push(Case { dim: 3, verts: verts.clone(), force_closed: false, scale: *scale, op: op.into(), param, nudge: 0.0, ctol: 0.0, derived: 0 });
             }
         }
     }
@@ -559,7 +601,7 @@ pub fn run(tier: Tier) -> i32 {
     let mut cx = Ctx::new("C05", tier, "exploration");
     cx.rule = "every vertex sequence over the 3x3 / 3x3x3 lattice up to the length bound x {open, force-closed} x scales straddling one unit of total length x the request menu (counts, spacings, max spacings, simplify/RDP tolerances, gap maxima); reference model: arc-length point function by linear scan and brute-force segment distance. distinct = distinct source curves".into();
     cx.bounds = json!({"seq_len_2d": tier.pick(4, 5), "seq_len_3d": 3, "scales": [1e-3, 0.25, 1.0, 7.3, 1e3], "requests": requests().iter().map(|(o, p)| format!("{}:{}", o, p)).collect::<Vec<_>>()});
-    cx.require(&["simple source", "self-touching source", "closed source", "source closed only within the tolerance", "open source", "3D source", "total length below one unit", "total length above one unit", "count", "spacing", "maxspacing", "simplify", "rdp", "fillgaps", "curve tolerance exactly zero", "coarse curve tolerance, finer simplification"]);
+    cx.require(&["simple source", "self-touching source", "closed source", "source closed only within the tolerance", "open source", "3D source", "total length below one unit", "total length above one unit", "count", "spacing", "maxspacing", "simplify", "rdp", "fillgaps", "curve tolerance exactly zero", "coarse curve tolerance, finer simplification", "source that is itself a derived curve"]);
     cx.assume("closed curves: requests that cannot leave three distinct positions may be rejected with Err (gray)");
     cx.assume("resampling clauses are judged on simple sources only (no two non-adjacent edges touch, no fold-back): on a self-overlapping polyline samples coincide and are merged, so span and spacing are not well defined; simplify, RDP and gap filling are judged on every source");
     let cs = cases(tier);
